@@ -493,6 +493,18 @@ def col_nonzero(A, j):
     return any(A[i][j] != 0 for i in range(len(A)))
 
 
+def snap(coll):
+    """pre-state snapshot of a Schedule / Template: per operand (bounds, A, b) as python lists"""
+    return [(list(p.bounds), tolist(p.pattern.A), tolist(p.pattern.b)) for p in coll]
+
+
+def check_frame(a, pre_t, pre_s):
+    """FRAME: an extra check is a pure predicate - scheduler_backtrack goes on building on the very objects (numpy views
+    of the candidate's matrices included) it handed to the check"""
+    check("frame: the template handed to the check is left unchanged", snap(a[0]) == pre_t)
+    check("frame: the schedule handed to the check is left unchanged (bounds, strides and offsets of every operand)", snap(a[1]) == pre_s)
+
+
 CONSTR = [dict(ops=o, rows=r, temporal=t, tdims=td) for o in (1, 2) for r in (1, 2) for t in (0, 1, 2, 3, 4) for td in (1, 2, 3) if t + td <= 6]
 
 
@@ -505,10 +517,12 @@ class is_pure_output_stationary_contract:
 
     def args(sh, sym):
         n = sh["temporal"] + sh["tdims"]
-        return [mk_template(sh["ops"], sh["rows"], sh["tdims"]), mk_schedule(sym, sh["ops"], sh["rows"], n)]
+        t, s = mk_template(sh["ops"], sh["rows"], sh["tdims"]), mk_schedule(sym, sh["ops"], sh["rows"], n)
+        return [t, s, snap(t), snap(s)]
 
     def ensures(sh, a, ret):
-        A = tolist(a[1][sh["ops"] - 1].pattern.A)
+        A = a[3][sh["ops"] - 1][1]
+        check_frame(a, a[2], a[3])
         T = sh["temporal"]
         # spec: among the temporal columns of the OUTPUT operand no reduction (all-zero) column precedes a parallel one
         spec = all(not (not col_nonzero(A, i) and col_nonzero(A, j)) for i in range(T) for j in range(i + 1, T))
@@ -527,10 +541,12 @@ class is_output_channel_stationary_contract:
 
     def args(sh, sym):
         n = sh["temporal"] + sh["tdims"]
-        return [mk_template(sh["ops"], sh["rows"], sh["tdims"]), mk_schedule(sym, sh["ops"], sh["rows"], n), sh["ch"]]
+        t, s = mk_template(sh["ops"], sh["rows"], sh["tdims"]), mk_schedule(sym, sh["ops"], sh["rows"], n)
+        return [t, s, sh["ch"], snap(t), snap(s)]
 
     def ensures(sh, a, ret):
-        row = tolist(a[1][sh["ops"] - 1].pattern.A)[sh["ch"]][: sh["temporal"]]
+        row = a[4][sh["ops"] - 1][1][sh["ch"]][: sh["temporal"]]
+        check_frame(a, a[3], a[4])
         spec = all(x == 0 for x in row) or row[0] != 0
         check("is_output_channel_stationary <=> the channel row is all zero or starts with a non-zero (no zero before the first non-zero)", ret == spec)
 
@@ -547,16 +563,18 @@ class is_memory_flexible_enough_contract:
 
     def args(sh, sym):
         n = sh["temporal"] + sh["tdims"]
-        return [mk_template(sh["ops"], sh["rows"], sh["tdims"]), mk_schedule(sym, sh["ops"], sh["rows"], n), list(sh["sizes"])[: sh["ops"]]]
+        t, s = mk_template(sh["ops"], sh["rows"], sh["tdims"]), mk_schedule(sym, sh["ops"], sh["rows"], n)
+        return [t, s, list(sh["sizes"])[: sh["ops"]], snap(t), snap(s)]
 
     def ensures(sh, a, ret):
+        check_frame(a, a[3], a[4])
         T, n = sh["temporal"], sh["temporal"] + sh["tdims"]
         if T == 0:
             check("no temporal dimensions: nothing to check", ret is True or ret == True)  # noqa: E712
         else:
             ok = True
             for o in range(sh["ops"]):
-                A = tolist(a[1][o].pattern.A)
+                A = a[4][o][1]
                 size = a[2][o]
                 g = -(-8 // size)  # ceil(bank width / element size)
                 # some result row has only bank-aligned temporal coefficients AND a spatial coefficient equal to 1
